@@ -748,11 +748,11 @@ def _configs(tier, seed):
 def tasks(tier, seed):
     from props.C16 import _grouped
 
-    out = _grouped(_configs(tier, seed), 12 if tier == "quick" else 24)
+    out = _grouped(_configs(tier, seed), 15 if tier == "quick" else 40)
     Ts = list(range(1, 8)) if tier == "quick" else list(range(1, 10))
     out["thin/enumeration"] = Task(_thin_task(Ts, (0, 1, 2, 3, 4, 5, 7)))
     cases = _run_cases(tier)
-    n = 4
+    n = 2 if tier == "quick" else 4
     for i in range(n):
         out[f"run/{i:02d}"] = Task(_run_task(cases[i::n]), modules=[], patch_names=())
     return out
